@@ -35,6 +35,15 @@ CLAIMED = {
  'C15': ('property-based testing: ns-precision timestamps set with utimensat, injected clock at k*period +/- epsilon, all nine -newerXY pairs with independent reference timestamps; model over read-back timestamps',
          'Exploration: ages at k*period -/+ 1 ns, 1 s for k in 0..400 and both periods on all six age tests with all three operand forms; entry.X placed at ref.Y -/+ 1 ns for all XY in {a,c,m}^2 plus -newer/-anewer/-cnewer.',
          'Clock injected through Dependencies::now(); ctime read back (cannot be set); negative ages, -daystart and -newerXt not asserted.', 'DESIGN.md §3 C15'),
+ 'C06': ('property-based testing with the kernel as oracle: generated argument counts/length profiles x environment sizes x RLIMIT_STACK settings x -n/-s/-L through the xargs binary and a recorder command',
+         'Exploration: hundreds (thorough: thousands) of inputs from one to 400000 arguments (1-byte arguments where pointer overhead dominates, page-sized, within 0-2 bytes of the 128 KiB per-argument limit) under kernel budgets from 128 KiB to 6 MiB and environments up to 3/4 of the budget; no invocation is rejected by exec, every argument is delivered once in order; arguments over the per-argument limit give exit 1 and are never handed to exec.',
+         'The running Linux kernel decides acceptance (one kernel: this sandbox\'s). Arguments that cannot fit into the whole budget at all may be refused with exit 1 (nothing can pass them).', 'DESIGN.md §3 C06'),
+ 'C19': ('property-based testing: generated child-outcome sequences (exit codes, signals) scripted into a recorder command vs an exit-status automaton; bounded-exhaustive short sequences; table of own errors',
+         'Exploration: every outcome sequence of length <= 4 (thorough 5) over six outcome classes plus random sequences to length 30 with fatal outcomes at every position, missing / non-executable commands, and a table of usage/input errors raised before or after earlier invocations; exit status and number of invocations started equal the automaton\'s.',
+         'Trusts the rec recorder (exits / kills itself as scripted). Child exit codes 126-254 are not generated.', 'DESIGN.md §3 C19'),
+ 'C20': ('property-based testing: generated line lists x initial-argument templates x replacement strings x option spellings vs a reference replace-mode model; bounded-exhaustive order matrix of -I/-n/-L',
+         'Exploration: the complete order matrix of 2-3 of {-I, -n k, -L k} (k in 1..3, all four spellings of -I for pairs) plus thousands of random line lists (inner/trailing blanks, R inside lines, blank lines, no final newline) x initial arguments with 0-3 occurrences of R; recorded invocations equal the model exactly.',
+         'Lines are free of quotes, backslashes and leading blanks (the stated domain). -I + -n 1 + -L together is not generated (the statement does not decide it).', 'DESIGN.md §3 C20'),
 }
 hooks_commits = subprocess.run(['git','-C','/repo','log','--format=%H %s'],capture_output=True,text=True).stdout.splitlines()
 hook_shas = [l.split()[0] for l in hooks_commits if 'verif hooks' in l]
